@@ -184,3 +184,32 @@ func (v *VerifRegistry) Values(n int) []LValue {
 	copy(out, v.rg.array[:n])
 	return out
 }
+
+// ---- C04: metamethod dispatch helpers (thin wrappers, no logic) ----
+
+func (ls *LState) VerifMetatable(v LValue, rawget bool) LValue   { return ls.metatable(v, rawget) }
+func (ls *LState) VerifMetaOp1(v LValue, event string) LValue    { return ls.metaOp1(v, event) }
+func (ls *LState) VerifMetaOp2(a, b LValue, event string) LValue { return ls.metaOp2(a, b, event) }
+func (ls *LState) VerifMetaCall(v LValue) (*LFunction, bool)     { return ls.metaCall(v) }
+
+// VerifObjectArith calls vm.go objectArith with the opcode of the named operator (add, sub, mul, div, mod, pow).
+func (ls *LState) VerifObjectArith(op string, a, b LValue) LValue {
+	opcode := map[string]int{"add": OP_ADD, "sub": OP_SUB, "mul": OP_MUL, "div": OP_DIV, "mod": OP_MOD, "pow": OP_POW}[op]
+	return objectArith(ls, opcode, a, b)
+}
+
+// VerifObjectRational calls vm.go objectRational (1, 0, or -1 when no common handler exists).
+func (ls *LState) VerifObjectRational(a, b LValue, event string) int {
+	return objectRational(ls, a, b, event)
+}
+
+// VerifStringConcat pushes the values and calls vm.go stringConcat (the result is not stringified).
+func (ls *LState) VerifStringConcat(values ...LValue) LValue {
+	top := ls.reg.Top()
+	for _, value := range values {
+		ls.reg.Push(value)
+	}
+	ret := stringConcat(ls, len(values), ls.reg.Top()-1)
+	ls.reg.SetTop(top)
+	return ret
+}
